@@ -144,6 +144,8 @@ def _h_len(a, k):
     x = a[0]
     if isinstance(x, SymBytes):
         return len(x.b)
+    if type(x).__name__ in ('SymStr', 'LazyStr'):
+        return len(x)
     return NotImplemented
 
 
@@ -526,6 +528,11 @@ def in_(x, container, neg):
     if neg:
         return x not in container
     return x in container
+
+
+def isctl_(e):
+    from .core import Abort, PathEnd
+    return isinstance(e, (Abort, PathEnd, Inconclusive, KeyboardInterrupt, SystemExit, GeneratorExit))
 
 
 def issym_(c):
